@@ -316,8 +316,13 @@ def conclude(ctx, mod, t0, evidence_path, args):
         by_backend[b] = by_backend.get(b, 0) + 1
         solver_s += v.result.get("seconds", 0)
     level = getattr(mod, "LEVEL", "proof")
-    n_obl = len(valid)   # a refuted obligation covered by a listed finding is replaced by its relativised form
-    n_dis = len(discharged) + extra_discharged
+    # obligations closed by the term simplifier (goal rewritten to `true` before any solver call) are obligations too:
+    # they are counted, under their own back-end name
+    n_triv = len(ctx.engine.trivial) if ctx.engine else 0
+    if n_triv:
+        by_backend["term-simplifier (goal rewritten to true)"] = n_triv
+    n_obl = len(valid) + n_triv   # a refuted obligation covered by a listed finding is replaced by its relativised form
+    n_dis = len(discharged) + extra_discharged + n_triv
     samples = [{"obligation": v.name, "kind": v.kind, "verdict": v.result["verdict"], "backend": v.result["backend"],
                 "seconds": round(v.result["seconds"], 3), "note": v.note, "smt2_bytes": len(v.smt2())} for v in (valid[:4] + refuted[:3])]
     samples += ctx.samples[:6]
